@@ -216,6 +216,20 @@ def gen_semantic_soup(rng):
         lambda: "REDIM %s(5)" % n,
         lambda: "ON ERROR GOTO %s" % n.replace(".", ""),
         lambda: "PRINT LEN(%s)" % rng.choice([n, n + "$", n + "(1)", "1", ""]),
+        # the same name as an (undefined) function or array inside parentheses, subscripts and assignment targets
+        lambda: "PRINT (%s(%s))" % (n, rng.choice(["1", "1, 2", n])),
+        lambda: "PRINT ARR(%s(1))" % n,
+        lambda: "ARR(%s(1)) = %s(2)" % (n, n),
+        lambda: "DIM ARR(3)",
+        lambda: "DIM %s(%s)" % (n, rng.choice(["3", "3, 3", "1 TO 2, 1 TO 2, 1 TO 2"])),
+        lambda: "%s(%s) = 2" % (n, rng.choice(["1", "1, 2", "1, 2, 3"])),
+        lambda: "REDIM SHARED %s(%s)" % (n, rng.choice(["3", "3, 3"])),
+        lambda: "FUNCTION %s%s\n%s = 1\n%s = 2\n%s%s = %s + 1\nEND FUNCTION" % (n.replace(".", ""), rng.choice(SEM_SUFFIX), n.replace(".", ""), n.replace(".", ""), n.replace(".", ""), rng.choice(SEM_SUFFIX), n.replace(".", "")),
+        lambda: "SUB S%s\nREDIM %s(%s)\n%s(1) = 1\nEND SUB" % (n.replace(".", ""), n, rng.choice(["5", "5, 5"]), n),
+        lambda: "S%s" % n.replace(".", ""),
+        lambda: "X = %s + (%s(1) * -%s(2))" % (n, n, n),
+        lambda: "IF (%s(1)) THEN PRINT %s ELSE %s = 1" % (n, n, n),
+        lambda: "WHILE %s(1, 2) < 0\nWEND" % n,
         lambda: "PRINT %s(%s)" % (rng.choice(["MID$", "LEFT$", "INSTR", "CHR$", "UBOUND", "VARPTR", "STR$", "VAL", "EOF", "STRING$"]), rng.choice(["", n, "1", '"a"', "1, 2", '"a", "b"', n + ", 1, 2, 3"])),
     ]
     for _ in range(rng.randrange(2, 9)):
